@@ -1290,6 +1290,9 @@ def hSettingRounds (inp out : Json) : Except String Findings := do
   let fs := spec fs "C18.no-reference-or-bad-selector-in-error" (settings.all (fun s =>
       !((s.reference.getD "") == "" || s.badSelector) || !validIn a1 s))
   let fs := spec fs "C12.writes-owned(setting)" foreign.isEmpty
+  -- a reconcile that could not read the nodes or the other settings never turns a setting valid
+  let faultedValid : Bool := (out.getObjValAs? Bool "faultedValid").toOption.getD false
+  let fs := spec fs "C18.read-fault-never-validates" (!faultedValid)
   return fs
 
 /-! ### PodTemplate controller (C13, last clause) -/
